@@ -140,6 +140,16 @@ def gen_case(cseed: int, tier: str) -> dict[str, Any]:
         "short_writes": k.getrandbits(32) if k.random() < 0.5 else None,
         "fault": None,
     }
+    if w.random() < 0.3:
+        by = []
+        for _ in range(w.randrange(1, 4)):
+            if ops and w.random() < 0.5:
+                src = w.choice(ops)
+                if 0 <= src["addr"] < TOP - 0x10400 and src["len"] < 70000 and not (src["addr"] <= EOFO + 0x200 and EOFO - 0x200 - 3 * 65535 <= src["addr"] + src["len"]):
+                    by.append(dict(src))
+                    continue
+            by.append({"addr": w.randrange(0, 0x100000), "len": w.randrange(1, 64), "fill": w.getrandbits(32)})
+        case["bystander"] = by
     if stream == "file" and f.random() < 0.4:
         case["fault"] = {"nth": f.choice([0, 1, 2, 3, f.randrange(0, 12), f.randrange(0, 400)]), "errno": f.choice(["ENOSPC", "EIO"])}
     return case
@@ -214,7 +224,26 @@ def _child(root: str, case: dict[str, Any]) -> dict[str, Any]:
             writer = IPSWriter(fobj, header) if header else IPSWriter(fobj)
             calls: list[tuple[str, Any]] = [("begin", None)] + [("write_block", i) for i in range(len(blocks))] + [("end", None)]
             done_blocks = 0
+            # a second, unrelated writer on its own stream, driven in between the calls of the writer
+            # under test (writers must not share state through the class or the module)
+            by_ops = case.get("bystander") or []
+            by_blocks = [(op["addr"], random.Random(op["fill"]).randbytes(op["len"])) for op in by_ops]
+            by_stream = io.BytesIO()
+            by_writer = IPSWriter(by_stream, not header) if by_ops else None
+            by_calls = [("begin", None)] + [("write_block", i) for i in range(len(by_blocks))] + [("end", None)] if by_ops else []
             for name, arg in calls:
+                if by_calls:
+                    bname, barg = by_calls.pop(0)
+                    try:
+                        if bname == "begin":
+                            by_writer.begin()
+                        elif bname == "end":
+                            by_writer.end()
+                        else:
+                            by_writer.write_block(by_blocks[barg][1], by_blocks[barg][0])
+                    except Exception as e:  # noqa: BLE001
+                        res["bystander_error"] = core.describe_exc(e)
+                        by_calls = []
                 fired_before = len(env.fired) if env is not None else 0
                 try:
                     if name == "begin":
@@ -250,6 +279,20 @@ def _child(root: str, case: dict[str, Any]) -> dict[str, Any]:
                         res["swallowed_in"] = name
                         break
             res["done_blocks"] = done_blocks
+            if by_ops and not res.get("bystander_error"):
+                try:
+                    for bname, barg in by_calls:
+                        if bname == "end":
+                            by_writer.end()
+                        elif bname == "write_block":
+                            by_writer.write_block(by_blocks[barg][1], by_blocks[barg][0])
+                    by_recs = ipsref.parse(by_stream.getvalue())
+                    if ipsref.apply_records(by_recs) != ipsref.image_of_blocks(by_blocks, 0 if header else 0x200):
+                        res["bystander_wrong"] = "image differs from its own blocks"
+                except ipsref.IpsFormatError as e:
+                    res["bystander_wrong"] = f"malformed: {e}"
+                except Exception as e:  # noqa: BLE001
+                    res["bystander_error"] = core.describe_exc(e)
             # harness closes the stream
             data_out: bytes | None
             if case["stream"] == "bytesio":
@@ -277,6 +320,8 @@ def _child(root: str, case: dict[str, Any]) -> dict[str, Any]:
     if res.get("hung_in"):
         verdicts.append(("writer_call_does_not_return", res["hung_in"], f"{res['hung_in']}({res.get('hung_arg')}) was still running after {STEP_BUDGET} interpreter steps"))
         return res
+    if res.get("bystander_wrong") or res.get("bystander_error"):
+        verdicts.append(("writers_interfere", "bystander", f"a second IPSWriter on its own stream, driven in between, produced a wrong file or failed: {res.get('bystander_wrong') or res.get('bystander_error')}"))
     if res["swallowed"]:
         verdicts.append(("swallowed_write_error", f"call={res['swallowed_in']}", f"an injected write error fired inside {res['swallowed_in']}() and the call returned normally"))
         return res
@@ -378,7 +423,7 @@ def run_case(case: dict[str, Any], stats: Stats) -> list[Violation]:
 
 
 def sample_of(case: dict[str, Any]) -> Any:
-    return {k: case[k] for k in ("header", "stream", "bufsize", "short_writes", "fault", "ops")}
+    return {k: case.get(k) for k in ("header", "stream", "bufsize", "short_writes", "fault", "ops", "bystander")}
 
 
 def shrink_candidates(case: dict[str, Any]):  # type: ignore[no-untyped-def]
@@ -387,6 +432,8 @@ def shrink_candidates(case: dict[str, Any]):  # type: ignore[no-untyped-def]
         c = dict(case)
         c["ops"] = ops[:i] + ops[i + 1 :]
         yield c
+    if case.get("bystander"):
+        yield dict(case, bystander=None)
     for key, val in (("short_writes", None), ("bufsize", 0), ("stream", "bytesio")):
         if case.get(key) != val and not (key == "stream" and case.get("fault")):
             c = dict(case)
